@@ -235,14 +235,17 @@ func (my *cacheImpl) removeRotted() {
 func (my *cacheImpl) getFutureStatus(future *Future) int {
 	if future != nil {
 		var updateTime = future.getUpdateTime()
-		var past = time.Since(updateTime)
+		if updateTime.IsZero() { // 尚未加载完成, 此时future.err还没有发布, 不能读取
+			return kFutureGood
+		}
 
+		var past = time.Since(updateTime)
 		var expire = my.args.normalExpire
 		if future.err != nil {
 			expire = my.args.errorExpire
 		}
 
-		if updateTime.IsZero() || past < expire {
+		if past < expire {
 			return kFutureGood
 		} else if past < 2*expire {
 			return kFutureExpired
